@@ -56,7 +56,7 @@ def main(ctx):
     tmp = tempfile.mkdtemp(prefix="verif_c11_")
     try:
         base_seed = ctx.seed * 31 + 1
-        r, res = run(ctx, [], base_seed, ctx.scale(40, 80), ctx.scale(2, 8), ctx.scale(60, 90), tmp)
+        r, res = run(ctx, [], base_seed, ctx.scale(30, 80), ctx.scale(3, 9), ctx.scale(60, 90), tmp)
         if res is None:
             raise RuntimeError("run_c11.py produced no result: " + (r.stdout + r.stderr)[-1500:])
         classify(ctx, res, "plain build")
